@@ -118,6 +118,22 @@ class SimSocket(object):
             raise _socket.error(*OS_ERRORS[k])
         raise RuntimeError(EXC_TEXTS[k % len(EXC_TEXTS)])
 
+    # the same reads and writes through the other calls of the socket API (a maintainer may prefer them)
+    def recv(self, nbytes, *flags):
+        buf = bytearray(nbytes)
+        n = self.recv_into(buf, nbytes)
+        return bytes(buf[:n])
+
+    def send(self, data, *flags):
+        self.sendall(data)
+        return len(data)
+
+    def setblocking(self, flag):
+        pass
+
+    def getpeername(self):
+        return ("192.0.2.1", 80)
+
     def shutdown(self, how):
         if self.closed:
             raise _socket.error(9, "Bad file descriptor")
@@ -533,6 +549,9 @@ class ZlibLog(object):
 
             def flush(self, *fa):
                 return real.flush(*fa)
+
+            def __getattr__(self, name):      # whatever else a compressobj offers (copy, ...)
+                return getattr(real, name)
         return C()
 
     def decompressobj(self, *a, **kw):
@@ -559,6 +578,9 @@ class ZlibLog(object):
             @property
             def unconsumed_tail(self):
                 return real.unconsumed_tail
+
+            def __getattr__(self, name):      # whatever else a decompressobj offers (flush, copy, ...)
+                return getattr(real, name)
 
             def decompress(self, data, *da):
                 data = bytes(data)
